@@ -209,6 +209,15 @@ def through_loaded_tables(ctx, g, cases, env0):
             buf = io.BytesIO()
             ir.save_protobuf_file(buf)
             ir2 = g.IR.load_protobuf_file(io.BytesIO(buf.getvalue()))
+            # every third time the loaded IR is COPIED before the table is read (copy.deepcopy / a pickle round trip): the table
+            # of the copy decodes against the copy's nodes
+            route = ("loaded", "deep copy of the loaded IR", "pickle round trip of the loaded IR")[ctx.cov["distribution"].get("loaded_table_roundtrips", 0) % 3]
+            if route.startswith("deep"):
+                import copy
+                ir2 = copy.deepcopy(ir2)
+            elif route.startswith("pickle"):
+                import pickle
+                ir2 = pickle.loads(pickle.dumps(ir2))
             got = ir2.aux_data[key].data
         except Exception as e:  # noqa: BLE001
             ctx.count("loaded_table_route_skipped:" + exc_name(g, e))
@@ -216,6 +225,13 @@ def through_loaded_tables(ctx, g, cases, env0):
         finally:
             ir.aux_data.pop(key, None)
         ctx.count("loaded_table_roundtrips")
+        ctx.count("loaded_table_route:" + route)
+        import protocheck as _pc
+        for nd in _pc.walk_nodes(g, got):
+            if ir2.get_by_uuid(nd.uuid) is not nd:
+                ctx.add("oracle", "roundtrip", "type %s, table read from the %s IR: an entry naming a node of that IR is not that IR's node object" % (tn, route),
+                        {"type_name": tn, "route": route})
+                break
         # the loaded IR has node objects of its own: map them back to the original IR's by UUID, then compare canonical forms
         def back(x):
             if isinstance(x, g.Node):
